@@ -47,8 +47,24 @@ RULE = ("one case = one workload (seeded: 4-15 writes, rf 1/3/5, schedule of wri
         "synced and appended head) and restarted as leader or follower; non-trivial = a crash instant was used, distinct by "
         "(workload, instant, mode, cut, restart role); trace cases: distinct by macro sequence")
 LEGS = [
-    {"name": "crash", "harness": "crash", "model": "crash", "n_quick": 480, "n_thorough": 50000,
+    {"name": "crash", "harness": "crash", "model": "crash", "n_quick": 480, "n_thorough": 28000,
      "corpus": "corpus/crash", "timeout": 600, "timeout_thorough": 6000,
      "compare": (lambda impl, model: model == "spec-leg" or impl == model)},
 ]
+# Thorough tier: the crash leg is split into parts, one harness process each. A process of the harness never lives
+# longer than 4 minutes (it stops generating by itself): shorter than any session timer of the code under test
+# (max 5 min), so that a timer left behind by a controller the harness has closed can never fire in it (a session
+# that oxia registers after its session manager was closed lists keys through the closed controller when it
+# expires: nil dereference in a goroutine of its own = the process dies; observation outside C07).
+THOROUGH_PARTS = 7
+
+
+def run(ctx):
+    if ctx.tier == "thorough":
+        base = LEGS[0]
+        ctx.mod.LEGS = [dict(base, name="crash-p%d" % i, n_thorough=base["n_thorough"] // THOROUGH_PARTS,
+                             args=["-part", str(i)], timeout_thorough=900) for i in range(THOROUGH_PARTS)]
+    return ctx.standard_run()
+
+
 REGISTERED = True
